@@ -184,6 +184,9 @@ func c09Run(r *ev.Run, tr *c09Transport, cases []*c09Case, rng *rand.Rand, tgt *
 	return true
 }
 
+// c09Second is a second NTS session with the same target (nil if the second key exchange failed).
+var c09Second *ntske.Data
+
 func c09Cases(r *ev.Run, rng *rand.Rand, d ntske.Data, tag string) []*c09Case {
 	var cases []*c09Case
 	lengths := []int{0, 1, 47, 48, 49, 76, 100}
@@ -256,9 +259,25 @@ func c09Cases(r *ev.Run, rng *rand.Rand, d ntske.Data, tag string) []*c09Case {
 		}
 		tx := peer.UniqueTime64()
 		binary.BigEndian.PutUint64(hdr[40:], tx)
-		pkt, _ := ntsRequest(hdr, d, rng.IntN(3))
+		// two sessions (two key exchanges) share the listener: requests of both are interleaved
+		ds := d
+		if c09Second != nil && fb%2 == 1 {
+			ds = *c09Second
+		}
+		pkt, _ := ntsRequest(hdr, ds, rng.IntN(3))
 		c := &c09Case{id: fmt.Sprintf("%snts%d", tag, fb), data: pkt, tx: tx, expect: c09Expect(pkt, true), class: "len>48,valid-NTS"}
 		cases = append(cases, c)
+		if c09Second != nil && fb%8 == 0 {
+			// the cookie of one session with the authenticator of the other: never answered
+			mix := *c09Second
+			mix.C2sKey, mix.S2cKey = d.C2sKey, d.S2cKey
+			hdr2 := append([]byte{}, hdr...)
+			tx3 := peer.UniqueTime64()
+			binary.BigEndian.PutUint64(hdr2[40:], tx3)
+			hdr2[0] = 0x23
+			pm, _ := ntsRequest(hdr2, mix, rng.IntN(3))
+			cases = append(cases, &c09Case{id: fmt.Sprintf("%sntsmix%d", tag, fb), data: pm, tx: tx3, expect: false, class: "len>48,NTS-cookie-of-one-session-authenticator-of-another"})
+		}
 		bad := append([]byte{}, pkt...)
 		tx2 := peer.UniqueTime64()
 		binary.BigEndian.PutUint64(bad[40:], tx2) // changes authenticated bytes: the authenticator no longer verifies
@@ -290,6 +309,9 @@ func init() {
 			r.Inconclusive(fmt.Sprint("key exchange with the target failed: ", err))
 			tgt.Kill()
 			r.Finish("key exchange failed", 0)
+		}
+		if d2, err := fetchNTS(srv); err == nil && len(d2.Cookie) > 0 {
+			c09Second = &d2
 		}
 		uc, err := peer.NewUDPClient(cli)
 		if err != nil {
